@@ -76,38 +76,44 @@ Record st := {
   accepted : list nat; received : list nat; returned : list nat; dropped : list nat; drained : list nat;
   s_pend : option nat; s_woken : bool;           (* last poll on the sender side was Pending with this waker *)
   r_pend : option (owner * nat); r_woken : bool;
+  st_pend : option nat; st_woken : bool;         (* strict per-entity bookkeeping for Stream::poll_next *)
   rdisc : bool;                                  (* some receive form has reported Disconnected / stream end *)
   s_ever : bool; r_ever : bool;                  (* close() has returned Ok on this endpoint *)
   ev : list event                                (* events of the current step *)
 }.
 
-Definition set_cap (v : nat) (s : st) : st := {| cap := v; q := q s; scount := scount s; rcount := rcount s; pdrop := pdrop s; cdrop := cdrop s; pw := pw s; cw := cw s; sh := sh s; rh := rh s; rreg := rreg s; sf := sf s; rf := rf s; next := next s; accepted := accepted s; received := received s; returned := returned s; dropped := dropped s; drained := drained s; s_pend := s_pend s; s_woken := s_woken s; r_pend := r_pend s; r_woken := r_woken s; rdisc := rdisc s; s_ever := s_ever s; r_ever := r_ever s; ev := ev s |}.
-Definition set_q (v : list nat) (s : st) : st := {| cap := cap s; q := v; scount := scount s; rcount := rcount s; pdrop := pdrop s; cdrop := cdrop s; pw := pw s; cw := cw s; sh := sh s; rh := rh s; rreg := rreg s; sf := sf s; rf := rf s; next := next s; accepted := accepted s; received := received s; returned := returned s; dropped := dropped s; drained := drained s; s_pend := s_pend s; s_woken := s_woken s; r_pend := r_pend s; r_woken := r_woken s; rdisc := rdisc s; s_ever := s_ever s; r_ever := r_ever s; ev := ev s |}.
-Definition set_scount (v : Z) (s : st) : st := {| cap := cap s; q := q s; scount := v; rcount := rcount s; pdrop := pdrop s; cdrop := cdrop s; pw := pw s; cw := cw s; sh := sh s; rh := rh s; rreg := rreg s; sf := sf s; rf := rf s; next := next s; accepted := accepted s; received := received s; returned := returned s; dropped := dropped s; drained := drained s; s_pend := s_pend s; s_woken := s_woken s; r_pend := r_pend s; r_woken := r_woken s; rdisc := rdisc s; s_ever := s_ever s; r_ever := r_ever s; ev := ev s |}.
-Definition set_rcount (v : Z) (s : st) : st := {| cap := cap s; q := q s; scount := scount s; rcount := v; pdrop := pdrop s; cdrop := cdrop s; pw := pw s; cw := cw s; sh := sh s; rh := rh s; rreg := rreg s; sf := sf s; rf := rf s; next := next s; accepted := accepted s; received := received s; returned := returned s; dropped := dropped s; drained := drained s; s_pend := s_pend s; s_woken := s_woken s; r_pend := r_pend s; r_woken := r_woken s; rdisc := rdisc s; s_ever := s_ever s; r_ever := r_ever s; ev := ev s |}.
-Definition set_pdrop (v : bool) (s : st) : st := {| cap := cap s; q := q s; scount := scount s; rcount := rcount s; pdrop := v; cdrop := cdrop s; pw := pw s; cw := cw s; sh := sh s; rh := rh s; rreg := rreg s; sf := sf s; rf := rf s; next := next s; accepted := accepted s; received := received s; returned := returned s; dropped := dropped s; drained := drained s; s_pend := s_pend s; s_woken := s_woken s; r_pend := r_pend s; r_woken := r_woken s; rdisc := rdisc s; s_ever := s_ever s; r_ever := r_ever s; ev := ev s |}.
-Definition set_cdrop (v : bool) (s : st) : st := {| cap := cap s; q := q s; scount := scount s; rcount := rcount s; pdrop := pdrop s; cdrop := v; pw := pw s; cw := cw s; sh := sh s; rh := rh s; rreg := rreg s; sf := sf s; rf := rf s; next := next s; accepted := accepted s; received := received s; returned := returned s; dropped := dropped s; drained := drained s; s_pend := s_pend s; s_woken := s_woken s; r_pend := r_pend s; r_woken := r_woken s; rdisc := rdisc s; s_ever := s_ever s; r_ever := r_ever s; ev := ev s |}.
-Definition set_pw (v : option nat) (s : st) : st := {| cap := cap s; q := q s; scount := scount s; rcount := rcount s; pdrop := pdrop s; cdrop := cdrop s; pw := v; cw := cw s; sh := sh s; rh := rh s; rreg := rreg s; sf := sf s; rf := rf s; next := next s; accepted := accepted s; received := received s; returned := returned s; dropped := dropped s; drained := drained s; s_pend := s_pend s; s_woken := s_woken s; r_pend := r_pend s; r_woken := r_woken s; rdisc := rdisc s; s_ever := s_ever s; r_ever := r_ever s; ev := ev s |}.
-Definition set_cw (v : option nat) (s : st) : st := {| cap := cap s; q := q s; scount := scount s; rcount := rcount s; pdrop := pdrop s; cdrop := cdrop s; pw := pw s; cw := v; sh := sh s; rh := rh s; rreg := rreg s; sf := sf s; rf := rf s; next := next s; accepted := accepted s; received := received s; returned := returned s; dropped := dropped s; drained := drained s; s_pend := s_pend s; s_woken := s_woken s; r_pend := r_pend s; r_woken := r_woken s; rdisc := rdisc s; s_ever := s_ever s; r_ever := r_ever s; ev := ev s |}.
-Definition set_sh (v : hst) (s : st) : st := {| cap := cap s; q := q s; scount := scount s; rcount := rcount s; pdrop := pdrop s; cdrop := cdrop s; pw := pw s; cw := cw s; sh := v; rh := rh s; rreg := rreg s; sf := sf s; rf := rf s; next := next s; accepted := accepted s; received := received s; returned := returned s; dropped := dropped s; drained := drained s; s_pend := s_pend s; s_woken := s_woken s; r_pend := r_pend s; r_woken := r_woken s; rdisc := rdisc s; s_ever := s_ever s; r_ever := r_ever s; ev := ev s |}.
-Definition set_rh (v : hst) (s : st) : st := {| cap := cap s; q := q s; scount := scount s; rcount := rcount s; pdrop := pdrop s; cdrop := cdrop s; pw := pw s; cw := cw s; sh := sh s; rh := v; rreg := rreg s; sf := sf s; rf := rf s; next := next s; accepted := accepted s; received := received s; returned := returned s; dropped := dropped s; drained := drained s; s_pend := s_pend s; s_woken := s_woken s; r_pend := r_pend s; r_woken := r_woken s; rdisc := rdisc s; s_ever := s_ever s; r_ever := r_ever s; ev := ev s |}.
-Definition set_rreg (v : bool) (s : st) : st := {| cap := cap s; q := q s; scount := scount s; rcount := rcount s; pdrop := pdrop s; cdrop := cdrop s; pw := pw s; cw := cw s; sh := sh s; rh := rh s; rreg := v; sf := sf s; rf := rf s; next := next s; accepted := accepted s; received := received s; returned := returned s; dropped := dropped s; drained := drained s; s_pend := s_pend s; s_woken := s_woken s; r_pend := r_pend s; r_woken := r_woken s; rdisc := rdisc s; s_ever := s_ever s; r_ever := r_ever s; ev := ev s |}.
-Definition set_sf (v : option (sfut * bool)) (s : st) : st := {| cap := cap s; q := q s; scount := scount s; rcount := rcount s; pdrop := pdrop s; cdrop := cdrop s; pw := pw s; cw := cw s; sh := sh s; rh := rh s; rreg := rreg s; sf := v; rf := rf s; next := next s; accepted := accepted s; received := received s; returned := returned s; dropped := dropped s; drained := drained s; s_pend := s_pend s; s_woken := s_woken s; r_pend := r_pend s; r_woken := r_woken s; rdisc := rdisc s; s_ever := s_ever s; r_ever := r_ever s; ev := ev s |}.
-Definition set_rf (v : option (rfut * bool)) (s : st) : st := {| cap := cap s; q := q s; scount := scount s; rcount := rcount s; pdrop := pdrop s; cdrop := cdrop s; pw := pw s; cw := cw s; sh := sh s; rh := rh s; rreg := rreg s; sf := sf s; rf := v; next := next s; accepted := accepted s; received := received s; returned := returned s; dropped := dropped s; drained := drained s; s_pend := s_pend s; s_woken := s_woken s; r_pend := r_pend s; r_woken := r_woken s; rdisc := rdisc s; s_ever := s_ever s; r_ever := r_ever s; ev := ev s |}.
-Definition set_next (v : nat) (s : st) : st := {| cap := cap s; q := q s; scount := scount s; rcount := rcount s; pdrop := pdrop s; cdrop := cdrop s; pw := pw s; cw := cw s; sh := sh s; rh := rh s; rreg := rreg s; sf := sf s; rf := rf s; next := v; accepted := accepted s; received := received s; returned := returned s; dropped := dropped s; drained := drained s; s_pend := s_pend s; s_woken := s_woken s; r_pend := r_pend s; r_woken := r_woken s; rdisc := rdisc s; s_ever := s_ever s; r_ever := r_ever s; ev := ev s |}.
-Definition set_accepted (v : list nat) (s : st) : st := {| cap := cap s; q := q s; scount := scount s; rcount := rcount s; pdrop := pdrop s; cdrop := cdrop s; pw := pw s; cw := cw s; sh := sh s; rh := rh s; rreg := rreg s; sf := sf s; rf := rf s; next := next s; accepted := v; received := received s; returned := returned s; dropped := dropped s; drained := drained s; s_pend := s_pend s; s_woken := s_woken s; r_pend := r_pend s; r_woken := r_woken s; rdisc := rdisc s; s_ever := s_ever s; r_ever := r_ever s; ev := ev s |}.
-Definition set_received (v : list nat) (s : st) : st := {| cap := cap s; q := q s; scount := scount s; rcount := rcount s; pdrop := pdrop s; cdrop := cdrop s; pw := pw s; cw := cw s; sh := sh s; rh := rh s; rreg := rreg s; sf := sf s; rf := rf s; next := next s; accepted := accepted s; received := v; returned := returned s; dropped := dropped s; drained := drained s; s_pend := s_pend s; s_woken := s_woken s; r_pend := r_pend s; r_woken := r_woken s; rdisc := rdisc s; s_ever := s_ever s; r_ever := r_ever s; ev := ev s |}.
-Definition set_returned (v : list nat) (s : st) : st := {| cap := cap s; q := q s; scount := scount s; rcount := rcount s; pdrop := pdrop s; cdrop := cdrop s; pw := pw s; cw := cw s; sh := sh s; rh := rh s; rreg := rreg s; sf := sf s; rf := rf s; next := next s; accepted := accepted s; received := received s; returned := v; dropped := dropped s; drained := drained s; s_pend := s_pend s; s_woken := s_woken s; r_pend := r_pend s; r_woken := r_woken s; rdisc := rdisc s; s_ever := s_ever s; r_ever := r_ever s; ev := ev s |}.
-Definition set_dropped (v : list nat) (s : st) : st := {| cap := cap s; q := q s; scount := scount s; rcount := rcount s; pdrop := pdrop s; cdrop := cdrop s; pw := pw s; cw := cw s; sh := sh s; rh := rh s; rreg := rreg s; sf := sf s; rf := rf s; next := next s; accepted := accepted s; received := received s; returned := returned s; dropped := v; drained := drained s; s_pend := s_pend s; s_woken := s_woken s; r_pend := r_pend s; r_woken := r_woken s; rdisc := rdisc s; s_ever := s_ever s; r_ever := r_ever s; ev := ev s |}.
-Definition set_drained (v : list nat) (s : st) : st := {| cap := cap s; q := q s; scount := scount s; rcount := rcount s; pdrop := pdrop s; cdrop := cdrop s; pw := pw s; cw := cw s; sh := sh s; rh := rh s; rreg := rreg s; sf := sf s; rf := rf s; next := next s; accepted := accepted s; received := received s; returned := returned s; dropped := dropped s; drained := v; s_pend := s_pend s; s_woken := s_woken s; r_pend := r_pend s; r_woken := r_woken s; rdisc := rdisc s; s_ever := s_ever s; r_ever := r_ever s; ev := ev s |}.
-Definition set_s_pend (v : option nat) (s : st) : st := {| cap := cap s; q := q s; scount := scount s; rcount := rcount s; pdrop := pdrop s; cdrop := cdrop s; pw := pw s; cw := cw s; sh := sh s; rh := rh s; rreg := rreg s; sf := sf s; rf := rf s; next := next s; accepted := accepted s; received := received s; returned := returned s; dropped := dropped s; drained := drained s; s_pend := v; s_woken := s_woken s; r_pend := r_pend s; r_woken := r_woken s; rdisc := rdisc s; s_ever := s_ever s; r_ever := r_ever s; ev := ev s |}.
-Definition set_s_woken (v : bool) (s : st) : st := {| cap := cap s; q := q s; scount := scount s; rcount := rcount s; pdrop := pdrop s; cdrop := cdrop s; pw := pw s; cw := cw s; sh := sh s; rh := rh s; rreg := rreg s; sf := sf s; rf := rf s; next := next s; accepted := accepted s; received := received s; returned := returned s; dropped := dropped s; drained := drained s; s_pend := s_pend s; s_woken := v; r_pend := r_pend s; r_woken := r_woken s; rdisc := rdisc s; s_ever := s_ever s; r_ever := r_ever s; ev := ev s |}.
-Definition set_r_pend (v : option (owner * nat)) (s : st) : st := {| cap := cap s; q := q s; scount := scount s; rcount := rcount s; pdrop := pdrop s; cdrop := cdrop s; pw := pw s; cw := cw s; sh := sh s; rh := rh s; rreg := rreg s; sf := sf s; rf := rf s; next := next s; accepted := accepted s; received := received s; returned := returned s; dropped := dropped s; drained := drained s; s_pend := s_pend s; s_woken := s_woken s; r_pend := v; r_woken := r_woken s; rdisc := rdisc s; s_ever := s_ever s; r_ever := r_ever s; ev := ev s |}.
-Definition set_r_woken (v : bool) (s : st) : st := {| cap := cap s; q := q s; scount := scount s; rcount := rcount s; pdrop := pdrop s; cdrop := cdrop s; pw := pw s; cw := cw s; sh := sh s; rh := rh s; rreg := rreg s; sf := sf s; rf := rf s; next := next s; accepted := accepted s; received := received s; returned := returned s; dropped := dropped s; drained := drained s; s_pend := s_pend s; s_woken := s_woken s; r_pend := r_pend s; r_woken := v; rdisc := rdisc s; s_ever := s_ever s; r_ever := r_ever s; ev := ev s |}.
-Definition set_rdisc (v : bool) (s : st) : st := {| cap := cap s; q := q s; scount := scount s; rcount := rcount s; pdrop := pdrop s; cdrop := cdrop s; pw := pw s; cw := cw s; sh := sh s; rh := rh s; rreg := rreg s; sf := sf s; rf := rf s; next := next s; accepted := accepted s; received := received s; returned := returned s; dropped := dropped s; drained := drained s; s_pend := s_pend s; s_woken := s_woken s; r_pend := r_pend s; r_woken := r_woken s; rdisc := v; s_ever := s_ever s; r_ever := r_ever s; ev := ev s |}.
-Definition set_s_ever (v : bool) (s : st) : st := {| cap := cap s; q := q s; scount := scount s; rcount := rcount s; pdrop := pdrop s; cdrop := cdrop s; pw := pw s; cw := cw s; sh := sh s; rh := rh s; rreg := rreg s; sf := sf s; rf := rf s; next := next s; accepted := accepted s; received := received s; returned := returned s; dropped := dropped s; drained := drained s; s_pend := s_pend s; s_woken := s_woken s; r_pend := r_pend s; r_woken := r_woken s; rdisc := rdisc s; s_ever := v; r_ever := r_ever s; ev := ev s |}.
-Definition set_r_ever (v : bool) (s : st) : st := {| cap := cap s; q := q s; scount := scount s; rcount := rcount s; pdrop := pdrop s; cdrop := cdrop s; pw := pw s; cw := cw s; sh := sh s; rh := rh s; rreg := rreg s; sf := sf s; rf := rf s; next := next s; accepted := accepted s; received := received s; returned := returned s; dropped := dropped s; drained := drained s; s_pend := s_pend s; s_woken := s_woken s; r_pend := r_pend s; r_woken := r_woken s; rdisc := rdisc s; s_ever := s_ever s; r_ever := v; ev := ev s |}.
-Definition set_ev (v : list event) (s : st) : st := {| cap := cap s; q := q s; scount := scount s; rcount := rcount s; pdrop := pdrop s; cdrop := cdrop s; pw := pw s; cw := cw s; sh := sh s; rh := rh s; rreg := rreg s; sf := sf s; rf := rf s; next := next s; accepted := accepted s; received := received s; returned := returned s; dropped := dropped s; drained := drained s; s_pend := s_pend s; s_woken := s_woken s; r_pend := r_pend s; r_woken := r_woken s; rdisc := rdisc s; s_ever := s_ever s; r_ever := r_ever s; ev := v |}.
+(* SETTERS-BEGIN *)
+Definition set_cap (v : nat) (s : st) : st := {| cap := v; q := q s; scount := scount s; rcount := rcount s; pdrop := pdrop s; cdrop := cdrop s; pw := pw s; cw := cw s; sh := sh s; rh := rh s; rreg := rreg s; sf := sf s; rf := rf s; next := next s; accepted := accepted s; received := received s; returned := returned s; dropped := dropped s; drained := drained s; s_pend := s_pend s; s_woken := s_woken s; r_pend := r_pend s; r_woken := r_woken s; st_pend := st_pend s; st_woken := st_woken s; rdisc := rdisc s; s_ever := s_ever s; r_ever := r_ever s; ev := ev s |}.
+Definition set_q (v : list nat) (s : st) : st := {| cap := cap s; q := v; scount := scount s; rcount := rcount s; pdrop := pdrop s; cdrop := cdrop s; pw := pw s; cw := cw s; sh := sh s; rh := rh s; rreg := rreg s; sf := sf s; rf := rf s; next := next s; accepted := accepted s; received := received s; returned := returned s; dropped := dropped s; drained := drained s; s_pend := s_pend s; s_woken := s_woken s; r_pend := r_pend s; r_woken := r_woken s; st_pend := st_pend s; st_woken := st_woken s; rdisc := rdisc s; s_ever := s_ever s; r_ever := r_ever s; ev := ev s |}.
+Definition set_scount (v : Z) (s : st) : st := {| cap := cap s; q := q s; scount := v; rcount := rcount s; pdrop := pdrop s; cdrop := cdrop s; pw := pw s; cw := cw s; sh := sh s; rh := rh s; rreg := rreg s; sf := sf s; rf := rf s; next := next s; accepted := accepted s; received := received s; returned := returned s; dropped := dropped s; drained := drained s; s_pend := s_pend s; s_woken := s_woken s; r_pend := r_pend s; r_woken := r_woken s; st_pend := st_pend s; st_woken := st_woken s; rdisc := rdisc s; s_ever := s_ever s; r_ever := r_ever s; ev := ev s |}.
+Definition set_rcount (v : Z) (s : st) : st := {| cap := cap s; q := q s; scount := scount s; rcount := v; pdrop := pdrop s; cdrop := cdrop s; pw := pw s; cw := cw s; sh := sh s; rh := rh s; rreg := rreg s; sf := sf s; rf := rf s; next := next s; accepted := accepted s; received := received s; returned := returned s; dropped := dropped s; drained := drained s; s_pend := s_pend s; s_woken := s_woken s; r_pend := r_pend s; r_woken := r_woken s; st_pend := st_pend s; st_woken := st_woken s; rdisc := rdisc s; s_ever := s_ever s; r_ever := r_ever s; ev := ev s |}.
+Definition set_pdrop (v : bool) (s : st) : st := {| cap := cap s; q := q s; scount := scount s; rcount := rcount s; pdrop := v; cdrop := cdrop s; pw := pw s; cw := cw s; sh := sh s; rh := rh s; rreg := rreg s; sf := sf s; rf := rf s; next := next s; accepted := accepted s; received := received s; returned := returned s; dropped := dropped s; drained := drained s; s_pend := s_pend s; s_woken := s_woken s; r_pend := r_pend s; r_woken := r_woken s; st_pend := st_pend s; st_woken := st_woken s; rdisc := rdisc s; s_ever := s_ever s; r_ever := r_ever s; ev := ev s |}.
+Definition set_cdrop (v : bool) (s : st) : st := {| cap := cap s; q := q s; scount := scount s; rcount := rcount s; pdrop := pdrop s; cdrop := v; pw := pw s; cw := cw s; sh := sh s; rh := rh s; rreg := rreg s; sf := sf s; rf := rf s; next := next s; accepted := accepted s; received := received s; returned := returned s; dropped := dropped s; drained := drained s; s_pend := s_pend s; s_woken := s_woken s; r_pend := r_pend s; r_woken := r_woken s; st_pend := st_pend s; st_woken := st_woken s; rdisc := rdisc s; s_ever := s_ever s; r_ever := r_ever s; ev := ev s |}.
+Definition set_pw (v : option nat) (s : st) : st := {| cap := cap s; q := q s; scount := scount s; rcount := rcount s; pdrop := pdrop s; cdrop := cdrop s; pw := v; cw := cw s; sh := sh s; rh := rh s; rreg := rreg s; sf := sf s; rf := rf s; next := next s; accepted := accepted s; received := received s; returned := returned s; dropped := dropped s; drained := drained s; s_pend := s_pend s; s_woken := s_woken s; r_pend := r_pend s; r_woken := r_woken s; st_pend := st_pend s; st_woken := st_woken s; rdisc := rdisc s; s_ever := s_ever s; r_ever := r_ever s; ev := ev s |}.
+Definition set_cw (v : option nat) (s : st) : st := {| cap := cap s; q := q s; scount := scount s; rcount := rcount s; pdrop := pdrop s; cdrop := cdrop s; pw := pw s; cw := v; sh := sh s; rh := rh s; rreg := rreg s; sf := sf s; rf := rf s; next := next s; accepted := accepted s; received := received s; returned := returned s; dropped := dropped s; drained := drained s; s_pend := s_pend s; s_woken := s_woken s; r_pend := r_pend s; r_woken := r_woken s; st_pend := st_pend s; st_woken := st_woken s; rdisc := rdisc s; s_ever := s_ever s; r_ever := r_ever s; ev := ev s |}.
+Definition set_sh (v : hst) (s : st) : st := {| cap := cap s; q := q s; scount := scount s; rcount := rcount s; pdrop := pdrop s; cdrop := cdrop s; pw := pw s; cw := cw s; sh := v; rh := rh s; rreg := rreg s; sf := sf s; rf := rf s; next := next s; accepted := accepted s; received := received s; returned := returned s; dropped := dropped s; drained := drained s; s_pend := s_pend s; s_woken := s_woken s; r_pend := r_pend s; r_woken := r_woken s; st_pend := st_pend s; st_woken := st_woken s; rdisc := rdisc s; s_ever := s_ever s; r_ever := r_ever s; ev := ev s |}.
+Definition set_rh (v : hst) (s : st) : st := {| cap := cap s; q := q s; scount := scount s; rcount := rcount s; pdrop := pdrop s; cdrop := cdrop s; pw := pw s; cw := cw s; sh := sh s; rh := v; rreg := rreg s; sf := sf s; rf := rf s; next := next s; accepted := accepted s; received := received s; returned := returned s; dropped := dropped s; drained := drained s; s_pend := s_pend s; s_woken := s_woken s; r_pend := r_pend s; r_woken := r_woken s; st_pend := st_pend s; st_woken := st_woken s; rdisc := rdisc s; s_ever := s_ever s; r_ever := r_ever s; ev := ev s |}.
+Definition set_rreg (v : bool) (s : st) : st := {| cap := cap s; q := q s; scount := scount s; rcount := rcount s; pdrop := pdrop s; cdrop := cdrop s; pw := pw s; cw := cw s; sh := sh s; rh := rh s; rreg := v; sf := sf s; rf := rf s; next := next s; accepted := accepted s; received := received s; returned := returned s; dropped := dropped s; drained := drained s; s_pend := s_pend s; s_woken := s_woken s; r_pend := r_pend s; r_woken := r_woken s; st_pend := st_pend s; st_woken := st_woken s; rdisc := rdisc s; s_ever := s_ever s; r_ever := r_ever s; ev := ev s |}.
+Definition set_sf (v : option (sfut * bool)) (s : st) : st := {| cap := cap s; q := q s; scount := scount s; rcount := rcount s; pdrop := pdrop s; cdrop := cdrop s; pw := pw s; cw := cw s; sh := sh s; rh := rh s; rreg := rreg s; sf := v; rf := rf s; next := next s; accepted := accepted s; received := received s; returned := returned s; dropped := dropped s; drained := drained s; s_pend := s_pend s; s_woken := s_woken s; r_pend := r_pend s; r_woken := r_woken s; st_pend := st_pend s; st_woken := st_woken s; rdisc := rdisc s; s_ever := s_ever s; r_ever := r_ever s; ev := ev s |}.
+Definition set_rf (v : option (rfut * bool)) (s : st) : st := {| cap := cap s; q := q s; scount := scount s; rcount := rcount s; pdrop := pdrop s; cdrop := cdrop s; pw := pw s; cw := cw s; sh := sh s; rh := rh s; rreg := rreg s; sf := sf s; rf := v; next := next s; accepted := accepted s; received := received s; returned := returned s; dropped := dropped s; drained := drained s; s_pend := s_pend s; s_woken := s_woken s; r_pend := r_pend s; r_woken := r_woken s; st_pend := st_pend s; st_woken := st_woken s; rdisc := rdisc s; s_ever := s_ever s; r_ever := r_ever s; ev := ev s |}.
+Definition set_next (v : nat) (s : st) : st := {| cap := cap s; q := q s; scount := scount s; rcount := rcount s; pdrop := pdrop s; cdrop := cdrop s; pw := pw s; cw := cw s; sh := sh s; rh := rh s; rreg := rreg s; sf := sf s; rf := rf s; next := v; accepted := accepted s; received := received s; returned := returned s; dropped := dropped s; drained := drained s; s_pend := s_pend s; s_woken := s_woken s; r_pend := r_pend s; r_woken := r_woken s; st_pend := st_pend s; st_woken := st_woken s; rdisc := rdisc s; s_ever := s_ever s; r_ever := r_ever s; ev := ev s |}.
+Definition set_accepted (v : list nat) (s : st) : st := {| cap := cap s; q := q s; scount := scount s; rcount := rcount s; pdrop := pdrop s; cdrop := cdrop s; pw := pw s; cw := cw s; sh := sh s; rh := rh s; rreg := rreg s; sf := sf s; rf := rf s; next := next s; accepted := v; received := received s; returned := returned s; dropped := dropped s; drained := drained s; s_pend := s_pend s; s_woken := s_woken s; r_pend := r_pend s; r_woken := r_woken s; st_pend := st_pend s; st_woken := st_woken s; rdisc := rdisc s; s_ever := s_ever s; r_ever := r_ever s; ev := ev s |}.
+Definition set_received (v : list nat) (s : st) : st := {| cap := cap s; q := q s; scount := scount s; rcount := rcount s; pdrop := pdrop s; cdrop := cdrop s; pw := pw s; cw := cw s; sh := sh s; rh := rh s; rreg := rreg s; sf := sf s; rf := rf s; next := next s; accepted := accepted s; received := v; returned := returned s; dropped := dropped s; drained := drained s; s_pend := s_pend s; s_woken := s_woken s; r_pend := r_pend s; r_woken := r_woken s; st_pend := st_pend s; st_woken := st_woken s; rdisc := rdisc s; s_ever := s_ever s; r_ever := r_ever s; ev := ev s |}.
+Definition set_returned (v : list nat) (s : st) : st := {| cap := cap s; q := q s; scount := scount s; rcount := rcount s; pdrop := pdrop s; cdrop := cdrop s; pw := pw s; cw := cw s; sh := sh s; rh := rh s; rreg := rreg s; sf := sf s; rf := rf s; next := next s; accepted := accepted s; received := received s; returned := v; dropped := dropped s; drained := drained s; s_pend := s_pend s; s_woken := s_woken s; r_pend := r_pend s; r_woken := r_woken s; st_pend := st_pend s; st_woken := st_woken s; rdisc := rdisc s; s_ever := s_ever s; r_ever := r_ever s; ev := ev s |}.
+Definition set_dropped (v : list nat) (s : st) : st := {| cap := cap s; q := q s; scount := scount s; rcount := rcount s; pdrop := pdrop s; cdrop := cdrop s; pw := pw s; cw := cw s; sh := sh s; rh := rh s; rreg := rreg s; sf := sf s; rf := rf s; next := next s; accepted := accepted s; received := received s; returned := returned s; dropped := v; drained := drained s; s_pend := s_pend s; s_woken := s_woken s; r_pend := r_pend s; r_woken := r_woken s; st_pend := st_pend s; st_woken := st_woken s; rdisc := rdisc s; s_ever := s_ever s; r_ever := r_ever s; ev := ev s |}.
+Definition set_drained (v : list nat) (s : st) : st := {| cap := cap s; q := q s; scount := scount s; rcount := rcount s; pdrop := pdrop s; cdrop := cdrop s; pw := pw s; cw := cw s; sh := sh s; rh := rh s; rreg := rreg s; sf := sf s; rf := rf s; next := next s; accepted := accepted s; received := received s; returned := returned s; dropped := dropped s; drained := v; s_pend := s_pend s; s_woken := s_woken s; r_pend := r_pend s; r_woken := r_woken s; st_pend := st_pend s; st_woken := st_woken s; rdisc := rdisc s; s_ever := s_ever s; r_ever := r_ever s; ev := ev s |}.
+Definition set_s_pend (v : option nat) (s : st) : st := {| cap := cap s; q := q s; scount := scount s; rcount := rcount s; pdrop := pdrop s; cdrop := cdrop s; pw := pw s; cw := cw s; sh := sh s; rh := rh s; rreg := rreg s; sf := sf s; rf := rf s; next := next s; accepted := accepted s; received := received s; returned := returned s; dropped := dropped s; drained := drained s; s_pend := v; s_woken := s_woken s; r_pend := r_pend s; r_woken := r_woken s; st_pend := st_pend s; st_woken := st_woken s; rdisc := rdisc s; s_ever := s_ever s; r_ever := r_ever s; ev := ev s |}.
+Definition set_s_woken (v : bool) (s : st) : st := {| cap := cap s; q := q s; scount := scount s; rcount := rcount s; pdrop := pdrop s; cdrop := cdrop s; pw := pw s; cw := cw s; sh := sh s; rh := rh s; rreg := rreg s; sf := sf s; rf := rf s; next := next s; accepted := accepted s; received := received s; returned := returned s; dropped := dropped s; drained := drained s; s_pend := s_pend s; s_woken := v; r_pend := r_pend s; r_woken := r_woken s; st_pend := st_pend s; st_woken := st_woken s; rdisc := rdisc s; s_ever := s_ever s; r_ever := r_ever s; ev := ev s |}.
+Definition set_r_pend (v : option (owner * nat)) (s : st) : st := {| cap := cap s; q := q s; scount := scount s; rcount := rcount s; pdrop := pdrop s; cdrop := cdrop s; pw := pw s; cw := cw s; sh := sh s; rh := rh s; rreg := rreg s; sf := sf s; rf := rf s; next := next s; accepted := accepted s; received := received s; returned := returned s; dropped := dropped s; drained := drained s; s_pend := s_pend s; s_woken := s_woken s; r_pend := v; r_woken := r_woken s; st_pend := st_pend s; st_woken := st_woken s; rdisc := rdisc s; s_ever := s_ever s; r_ever := r_ever s; ev := ev s |}.
+Definition set_r_woken (v : bool) (s : st) : st := {| cap := cap s; q := q s; scount := scount s; rcount := rcount s; pdrop := pdrop s; cdrop := cdrop s; pw := pw s; cw := cw s; sh := sh s; rh := rh s; rreg := rreg s; sf := sf s; rf := rf s; next := next s; accepted := accepted s; received := received s; returned := returned s; dropped := dropped s; drained := drained s; s_pend := s_pend s; s_woken := s_woken s; r_pend := r_pend s; r_woken := v; st_pend := st_pend s; st_woken := st_woken s; rdisc := rdisc s; s_ever := s_ever s; r_ever := r_ever s; ev := ev s |}.
+Definition set_st_pend (v : option nat) (s : st) : st := {| cap := cap s; q := q s; scount := scount s; rcount := rcount s; pdrop := pdrop s; cdrop := cdrop s; pw := pw s; cw := cw s; sh := sh s; rh := rh s; rreg := rreg s; sf := sf s; rf := rf s; next := next s; accepted := accepted s; received := received s; returned := returned s; dropped := dropped s; drained := drained s; s_pend := s_pend s; s_woken := s_woken s; r_pend := r_pend s; r_woken := r_woken s; st_pend := v; st_woken := st_woken s; rdisc := rdisc s; s_ever := s_ever s; r_ever := r_ever s; ev := ev s |}.
+Definition set_st_woken (v : bool) (s : st) : st := {| cap := cap s; q := q s; scount := scount s; rcount := rcount s; pdrop := pdrop s; cdrop := cdrop s; pw := pw s; cw := cw s; sh := sh s; rh := rh s; rreg := rreg s; sf := sf s; rf := rf s; next := next s; accepted := accepted s; received := received s; returned := returned s; dropped := dropped s; drained := drained s; s_pend := s_pend s; s_woken := s_woken s; r_pend := r_pend s; r_woken := r_woken s; st_pend := st_pend s; st_woken := v; rdisc := rdisc s; s_ever := s_ever s; r_ever := r_ever s; ev := ev s |}.
+Definition set_rdisc (v : bool) (s : st) : st := {| cap := cap s; q := q s; scount := scount s; rcount := rcount s; pdrop := pdrop s; cdrop := cdrop s; pw := pw s; cw := cw s; sh := sh s; rh := rh s; rreg := rreg s; sf := sf s; rf := rf s; next := next s; accepted := accepted s; received := received s; returned := returned s; dropped := dropped s; drained := drained s; s_pend := s_pend s; s_woken := s_woken s; r_pend := r_pend s; r_woken := r_woken s; st_pend := st_pend s; st_woken := st_woken s; rdisc := v; s_ever := s_ever s; r_ever := r_ever s; ev := ev s |}.
+Definition set_s_ever (v : bool) (s : st) : st := {| cap := cap s; q := q s; scount := scount s; rcount := rcount s; pdrop := pdrop s; cdrop := cdrop s; pw := pw s; cw := cw s; sh := sh s; rh := rh s; rreg := rreg s; sf := sf s; rf := rf s; next := next s; accepted := accepted s; received := received s; returned := returned s; dropped := dropped s; drained := drained s; s_pend := s_pend s; s_woken := s_woken s; r_pend := r_pend s; r_woken := r_woken s; st_pend := st_pend s; st_woken := st_woken s; rdisc := rdisc s; s_ever := v; r_ever := r_ever s; ev := ev s |}.
+Definition set_r_ever (v : bool) (s : st) : st := {| cap := cap s; q := q s; scount := scount s; rcount := rcount s; pdrop := pdrop s; cdrop := cdrop s; pw := pw s; cw := cw s; sh := sh s; rh := rh s; rreg := rreg s; sf := sf s; rf := rf s; next := next s; accepted := accepted s; received := received s; returned := returned s; dropped := dropped s; drained := drained s; s_pend := s_pend s; s_woken := s_woken s; r_pend := r_pend s; r_woken := r_woken s; st_pend := st_pend s; st_woken := st_woken s; rdisc := rdisc s; s_ever := s_ever s; r_ever := v; ev := ev s |}.
+Definition set_ev (v : list event) (s : st) : st := {| cap := cap s; q := q s; scount := scount s; rcount := rcount s; pdrop := pdrop s; cdrop := cdrop s; pw := pw s; cw := cw s; sh := sh s; rh := rh s; rreg := rreg s; sf := sf s; rf := rf s; next := next s; accepted := accepted s; received := received s; returned := returned s; dropped := dropped s; drained := drained s; s_pend := s_pend s; s_woken := s_woken s; r_pend := r_pend s; r_woken := r_woken s; st_pend := st_pend s; st_woken := st_woken s; rdisc := rdisc s; s_ever := s_ever s; r_ever := r_ever s; ev := v |}.
+(* SETTERS-END *)
+
 
 Notation "s |> f" := (f s) (at level 50, left associativity, only parsing).
 
@@ -116,7 +122,7 @@ Definition init (c : nat) (k : kind) : st :=
      pw := None; cw := None; sh := HLive k false; rh := HLive k false; rreg := false;
      sf := None; rf := None; next := 0;
      accepted := []; received := []; returned := []; dropped := []; drained := [];
-     s_pend := None; s_woken := false; r_pend := None; r_woken := false;
+     s_pend := None; s_woken := false; r_pend := None; r_woken := false; st_pend := None; st_woken := false;
      rdisc := false; s_ever := false; r_ever := false; ev := [] |}.
 
 Definition held_of (f : sfut) : list nat :=
@@ -127,7 +133,14 @@ Definition emit (e : event) (s : st) : st := set_ev (ev s ++ [e]) s.
 
 (* SpscShared::wake_one(Role::Recv) / (Role::Send) *)
 Definition wake_r (s : st) : st :=
-  match cw s with Some w => s |> set_cw None |> set_r_woken true |> emit (EWake w) | None => s end.
+  match cw s with
+  | Some w =>
+    let s1 := match st_pend s with
+              | Some w' => if w' =? w then set_st_woken true s else s
+              | None => s end in
+    s1 |> set_cw None |> set_r_woken true |> emit (EWake w)
+  | None => s
+  end.
 Definition wake_s (s : st) : st :=
   match pw s with Some w => s |> set_pw None |> set_s_woken true |> emit (EWake w) | None => s end.
 
@@ -167,7 +180,7 @@ Definition shared_drop_if (s : st) : st :=
   end.
 
 Definition clear_stream_pend (s : st) : st :=
-  match r_pend s with Some (OStream, _) => set_r_pend None s | _ => s end.
+  set_st_pend None (match r_pend s with Some (OStream, _) => set_r_pend None s | _ => s end).
 Definition clear_fut_pend (s : st) : st :=
   match r_pend s with Some (OFut, _) => set_r_pend None s | _ => s end.
 Definition note_disc (s : st) : st := set_rdisc true s.
@@ -417,11 +430,12 @@ Definition do_dropfut_r (s : st) : st * res :=
 
 Definition do_stream_next (w : nat) (s : st) : st * res :=
   gate_r s (Some KAsync) (fun _ c =>
-    if c then (note_disc s, RNone)
+    if c then (clear_stream_pend (note_disc s), RNone)
     else match q s with
          | x :: _ => (clear_stream_pend (pop 1 (stream_unreg s)), RVal x)
          | [] => if senders_alive s
-                 then (s |> set_cw (Some w) |> set_rreg true |> set_r_pend (Some (OStream, w)) |> set_r_woken false, RPending)
+                 then (s |> set_cw (Some w) |> set_rreg true |> set_r_pend (Some (OStream, w)) |> set_r_woken false
+                         |> set_st_pend (Some w) |> set_st_woken false, RPending)
                  else (note_disc (clear_stream_pend (stream_unreg s)), RNone)
          end).
 
